@@ -40,6 +40,8 @@ pub fn rand_script(rng: &mut Rng, len: usize, end: u64) -> Vec<ScriptLine> {
             0 | 1 => v.push(rand_print_cmd(rng)),
             2 => v.push(ScriptLine::garbage(rng)),
             3 if rng.chance(1, 2) => v.push(ScriptLine { raw: rng.pick(&["", " ", "\t", "   "]).to_string(), newline: true, cls: "garbage", what: None }),
+            // a line that is not valid UTF-8: reported as unreadable, then the run goes on
+            4 if rng.chance(1, 3) => v.push(ScriptLine::unreadable(rng)),
             _ => v.push(ScriptLine::next(rng)),
         }
     }
@@ -196,6 +198,26 @@ pub fn gen_driver(prop: &str, rng: &mut Rng, sh: &mut Shards, out: &str, thoroug
                 k.int3 = true;
                 k.blocks = 6 + (i % 8);
                 let mut p = g.program(&k);
+                {
+                    // print statements whose constants are written `offset <data label>` (every position of every form)
+                    let labs: Vec<String> = p.data.iter().filter_map(|d| match d { DataItem::Def { label: Some(n), .. } => Some(n.clone()), _ => None }).collect();
+                    if !labs.is_empty() {
+                        let off = |rng: &mut Rng| Addr::Off(rng.pick(&labs).clone());
+                        let pos = p.items.iter().position(|x| matches!(x, Item::Label(n) if n == "start")).unwrap() + 1;
+                        let rest = p.items.split_off(pos);
+                        let forms = [
+                            PrintWhat::Sym { form: "range", x: off(rng), y: Some(off(rng)) },
+                            PrintWhat::Sym { form: "range", x: Addr::Num(rng.below(4) as u32), y: Some(off(rng)) },
+                            PrintWhat::Sym { form: "span", x: off(rng), y: Some(Addr::Num(rng.below(20) as u32)) },
+                            PrintWhat::Sym { form: "span", x: Addr::Num(rng.below(64) as u32), y: Some(off(rng)) },
+                            PrintWhat::Sym { form: "dsspan", x: off(rng), y: None },
+                        ];
+                        for f in forms.iter() {
+                            if rng.chance(1, 2) { p.items.push(Item::Ins(Ins::Print { what: f.clone() })); }
+                        }
+                        p.items.extend(rest);
+                    }
+                }
                 if i % 2 == 1 {
                     // a data segment away from 0, memory written through it, DS-relative and top-of-memory prints
                     let seg = *rng.pick(&[0x1000u16, 0x1234, 0x8000, 0xF000, 0xFFF0, 0xFFFE, 0xFFFF, 0x0FFF]);
@@ -312,7 +334,8 @@ pub fn gen_driver(prop: &str, rng: &mut Rng, sh: &mut Shards, out: &str, thoroug
                             // INT 21h / 01h: first byte of the next line
                             items.push(mov16("ax", 0x0100 | rng.u8() as u16));
                             items.push(Item::Ins(Ins::Int { n: 0x21 }));
-                            match rng.below(4) {
+                            match if rng.chance(1, 8) { 9 } else { rng.below(4) } {
+                                9 => stdin.push(ScriptLine::unreadable(rng)),
                                 0 => {}
                                 1 => stdin.push(line_of(rng, 0, true)),
                                 2 => { let n = 1 + rng.below(5) as usize; stdin.push(line_of(rng, n, true)) }
@@ -336,7 +359,8 @@ pub fn gen_driver(prop: &str, rng: &mut Rng, sh: &mut Shards, out: &str, thoroug
                             items.push(mov16("ax", 0x0A00 | rng.u8() as u16));
                             items.push(Item::Ins(Ins::Int { n: 0x21 }));
                             let c = cap as usize;
-                            match rng.below(7) {
+                            match if rng.chance(1, 8) { 9 } else { rng.below(7) } {
+                                9 => stdin.push(ScriptLine::unreadable(rng)),
                                 0 => {}
                                 1 => stdin.push(line_of(rng, 0, true)),
                                 2 => stdin.push(line_of(rng, c.saturating_sub(1), true)),
@@ -610,7 +634,8 @@ fn all_ins_mut<'a>(items: &'a mut Vec<Item>, out: &mut Vec<&'a mut Ins>) {
 pub fn mutate(base: &Program, m: usize, rng: &mut Rng) -> Option<Program> {
     let mut p = base.clone();
     let data_label: Option<String> = p.data.iter().find_map(|d| match d { DataItem::Def { label: Some(l), .. } => Some(l.clone()), _ => None });
-    let unsupported = ["in al, 5", "out 5, al", "lds ax, [bx]", "les bx, [si]", "into", "iret", "wait", "lock", "esc", "int 5", "int 0", "movsb", "dd 5", "pop cs", "mov ax, byte [bx]", "mov al, word [0]", "xchg ax, 5", "lea ax, bx", "push al", "push 5", "mov ds, 5", "inc 5", "mov 5, ax", "add word [bx], word [si]"];
+    let unsupported = ["in al, 5", "out 5, al", "lds ax, [bx]", "les bx, [si]", "into", "iret", "wait", "lock", "esc",
+        "IN AL, 5", "in al, dl", "OUT 5, AL", "out dl, al", "LDS AX, [BX]", "LES BX, ES[SI, 2]", "INTO", "IRET", "WAIT", "LOCK", "ESC", "int 5", "int 0", "movsb", "dd 5", "pop cs", "mov ax, byte [bx]", "mov al, word [0]", "xchg ax, 5", "lea ax, bx", "push al", "push 5", "mov ds, 5", "inc 5", "mov 5, ax", "add word [bx], word [si]"];
     match m {
         0 => {
             // drop the definition of a code label that is used
